@@ -159,6 +159,8 @@ def flat_py(t, x):
         return [float(x) if isinstance(t, TRealT) else x]
     if isinstance(t, (TNodeT, TObjT)):
         return [x]
+    if type(t).__name__ == "TConst":
+        return []
     if isinstance(t, TTuple):
         return [v for s, e in zip(t.ts, x) for v in flat_py(s, e)]
     if isinstance(t, TVec):
